@@ -224,12 +224,19 @@ func init() {
 	})
 
 	reg("xrange", func(s *KS, a [][]byte) []Outcome {
+		count := int64(-1)
 		if len(a) != 4 {
-			if len(a) == 6 && lower(a[4]) == "count" {
-				// COUNT is outside C18's statement
-				return one(Matcher{Desc: "(COUNT outside the modelled subset)", F: func(Val) string { return "" }}, s)
+			if len(a) != 6 || lower(a[4]) != "count" {
+				return errOut(s)
 			}
-			return errOut(s)
+			c, okc := parseInt(a[5])
+			if !okc {
+				return errOut(s)
+			}
+			if c < 0 {
+				c = 0 // the reference clamps a negative COUNT to 0: nothing is returned
+			}
+			count = c
 		}
 		n := begin(s)
 		e, ok := n.streamOf(string(a[1]))
@@ -293,6 +300,9 @@ func init() {
 					res = append(res, x)
 				}
 			}
+		}
+		if count >= 0 && int64(len(res)) > count {
+			res = res[:count]
 		}
 		return one(mEntries(res), n)
 	})
